@@ -109,6 +109,10 @@ def read_type(dbsrc, decoder, col):
     return None
 
 
+class OptionFlattened(Exception):
+    pass
+
+
 class Conv:
     """numeric pipeline of one parameter: source type -> f -> parameter type"""
     def __init__(self, src_ty, fn, out_ty, text):
@@ -148,6 +152,10 @@ def source_type(expr, field_ty):
 def conversion(expr, field_ty):
     """Conv for the (single) numeric transformation in expr, None if the expression has no risky token"""
     e = expr
+    # Option<T> flattened with a default: None is stored as that default and comes back as Some(default)
+    mo = re.fullmatch(r'(.+?)\.(unwrap_or_default\(\)|unwrap_or\((.+)\))', e.strip())
+    if mo and 'Option' in (field_ty or '') and not RISKY.search(mo.group(1)):
+        raise OptionFlattened(mo.group(2))
     # look inside Option::map closures:  X.map(|v| BODY)  -> analyse BODY with v as the accessor
     m = re.search(r'\.map\(\s*\|\s*(\w+)\s*\|\s*(.+)\)\s*$', e)
     inner_var = None
